@@ -66,7 +66,8 @@ class QModel:
         self.wfields = wf
         snd = [x for x in wf if x['ty'].startswith(SENDER)]
         rcv = [x for x in wf if x['ty'].startswith(RECEIVER)]
-        task = [x for x in wf if x['ty'].replace('(', '', 1).startswith('alloc::boxed::Box<dyn core::ops::function::Fn') and x['ty'].startswith('alloc::boxed::Box<')]
+        task = [x for x in wf if any(x['ty'].replace('(', '', 1).startswith(p_ + '<dyn core::ops::function::Fn') and x['ty'].startswith(p_ + '<')
+                                     for p_ in ('alloc::boxed::Box', 'alloc::sync::Arc'))]
         if len(snd) != 1 or len(rcv) != 1 or len(task) != 1:
             rep.anchor_lost('Q0', 'worker fields sender/receiver/task (%d/%d/%d)' % (len(snd), len(rcv), len(task)))
             return
